@@ -106,3 +106,14 @@ def f31_radix_error_precedence(case, impl, model, spec):
     for d in ds[:len(ds) // k * k]:
         v = v * r + d
     return v >= 1 << (64 * cap)
+
+
+def f32_wrapping_boxed_zero_like(case, impl, model, spec):
+    """F32: Zero::zero_like / Zero::set_zero on Wrapping<BoxedUint> run the trait defaults (`*self = Zero::zero()`) and
+    return a ONE-limb zero whatever the precision of the operand. Matches exactly: one of the two routes, an operand of
+    more than one limb, implementation = faithful model = one zero limb, specification = zero at the operand's precision."""
+    import re
+    if not re.fullmatch(r'glue\.zero_like_wrapping_boxed(\.set_zero)?', case.rop):
+        return False
+    n = len(case.args[0])
+    return n > 1 and impl == model == 'ok 0' and spec == 'ok ' + ','.join(['0'] * n)
